@@ -54,8 +54,8 @@ CLAIM = dict(
           "int(ceil(log(n, 2.0))) of hilbert_chip_order is modelled by the exact ceil-log2 and compared for n <= 256 "
           "(coverage holds for any level >= the exact one). Domain (theorem hypotheses WF / Consistent / InDomain / "
           "EmptyOK, applied to the generators): vertices_resources is a dict of non-negative demands for resources the "
-          "machine has, chip resources non-negative; every resource exception lists the machine's resources; resource "
-          "exceptions and per-chip reservations only on working chips; a same-chip group is pinned to at most one chip; "
+          "machine has, chip resources non-negative; every resource exception (also one recorded for a dead chip) lists the "
+          "machine's resources; per-chip reservations only on working chips; a same-chip group is pinned to at most one chip; "
           "constraints mention only known vertices; custom vertex orders are permutations of the vertices; with no "
           "vertex at all reservations must fit the chips (documented as undefined behaviour otherwise). The shuffles "
           "of the annealer are oracles assumed to be lists of working chips / of the movable vertices (permutations for "
@@ -73,7 +73,8 @@ THEOREMS = ["seqPlace_sound", "randPlace_sound", "saPlace_initial_sound", "seqPl
             "seqPlace_complete_unit_default"]
 
 RULE = ("problems: 0-40 vertices (0-3 units of 1-3 resources, some needing nothing), random nets, machines 1x1..10x10 "
-        "with dead chips and per-chip resource exceptions sized so that packing is tight, location constraints (also on "
+        "with dead chips (some made dead after construction) and per-chip resource exceptions drawn independently of them "
+        "(exceptions on dead / outside chips, equal to the default, offering nothing) sized so that packing is tight, location constraints (also on "
         "dead/outside chips), same-chip groups (chained, duplicated members, singletons, location-constrained members), "
         "global and per-chip reservations, endpoint/alignment constraints; a unit-demand stream for the completeness "
         "clause; a small out-of-domain stream (correspondence only). Each problem is run through sequential (default and "
@@ -130,11 +131,22 @@ def gen_problem(rng, big=False, unit=False, ood=False):
         D = sum(d[i] for _, d, _ in vr)
         res.append(max(0, int(-(-D * f // W)) + rng.choice([0, 0, 0, 1, 1, 2, 3])))
     capmax = max(res + [0])
+    # resource exceptions are drawn independently of the dead chips: a dead chip (also one outside the machine, also
+    # one made dead after construction - a chip blacklisted after probing) may carry an exception entry; entries equal
+    # to the default and entries offering nothing at all are included
     exc = []
-    for c in working:
+    for c in allchips + [d for d in dead if d not in allchips]:
         if rng.random() < 0.25:
-            exc.append([list(c), [max(0, res[i] + rng.choice([-2, -1, -1, 0, 1, 2])) for i in range(R)]])
+            k = rng.random()
+            if k < 0.12:
+                e = list(res)
+            elif k < 0.22:
+                e = [0] * R
+            else:
+                e = [max(0, res[i] + rng.choice([-2, -1, -1, 0, 1, 2])) for i in range(R)]
+            exc.append([list(c), e])
     rng.shuffle(exc)
+    dead_late = [c for c in dead if c in allchips and rng.random() < 0.3]
     # nets
     nets = []
     for _ in range(rng.choice([0, 1, 2, n, 2 * n]) if n else 0):
@@ -192,11 +204,8 @@ def gen_problem(rng, big=False, unit=False, ood=False):
         cs.append({"t": "other"})
     rng.shuffle(cs)
     if ood:
-        what = rng.choice(["exc-dead", "res-dead", "inconsistent", "unknown-vertex"])
-        if what == "exc-dead" and dead:
-            exc.insert(rng.randrange(len(exc) + 1), [list(dead[0]), [capmax] * R])
-            cs.insert(rng.randrange(len(cs) + 1), {"t": "res", "r": rng.randrange(R), "amt": 1, "c": None})
-        elif what == "res-dead" and dead:
+        what = rng.choice(["res-dead", "inconsistent", "unknown-vertex"])
+        if what == "res-dead" and dead:
             cs.insert(rng.randrange(len(cs) + 1), {"t": "res", "r": rng.randrange(R), "amt": 1, "c": list(dead[0])})
         elif what == "inconsistent" and n and len(working) >= 2:
             v = rng.randrange(n)
@@ -208,6 +217,7 @@ def gen_problem(rng, big=False, unit=False, ood=False):
                                                               {"t": "same", "vs": [0, n + 5]}]))
         tags.append("ood-" + what)
     prob = {"w": w, "h": h, "res": res, "exc": exc, "dead": [list(c) for c in dead],
+            "dead_late": [list(c) for c in dead_late],
             "vr": vr, "nets": nets, "cs": cs, "ood": bool(ood), "unit": False}
     # custom orders for the sequential placer
     vo = list(range(n))
@@ -369,8 +379,10 @@ def build(prob):
     M = cls["Machine"] if kinds.pick("machine", [0, 1]) else Machine
     machine = M(prob["w"], prob["h"], chip_resources=dr(prob["res"]),
                 chip_resource_exceptions={tuple(c): dr_rot(r, c[0] + c[1] + 1) for c, r in prob["exc"]},
-                dead_chips={tuple(c) for c in prob["dead"]},
+                dead_chips={tuple(c) for c in prob["dead"]} - {tuple(c) for c in prob.get("dead_late", [])},
                 dead_links={(x, y, Links(l)) for x, y, l in prob.get("dead_links", [])})
+    for c in prob.get("dead_late", []):
+        machine.dead_chips.add(tuple(c))        # a chip found dead after the machine object was built
     VR = kinds.pick("vr", ["odict", "dict", "mydict", "myodict"])
     vr = {"odict": collections.OrderedDict, "dict": dict}[VR]() if VR in ("odict", "dict") else \
         cls["dict" if VR == "mydict" else "odict"]()
@@ -1130,7 +1142,8 @@ def run(ctx):
                                  "the annealer's float cost/temperature arithmetic is abstracted to the recorded accept decision"]
     ctx.assumptions += [
         "vertices demand (a non-zero amount of) only resources the machine defines - a demand of 0 of a resource the machine lacks is generated; every resource exception lists the machine's resources",
-        "resource exceptions and per-chip reservations name working chips (otherwise IndexError: out-of-domain stream, DESIGN F16)",
+        "per-chip reservations name working chips (a ReserveResourceConstraint at a dead chip is an invalid constraint; the code "
+        "answers IndexError: out-of-domain stream); resource exceptions may be recorded for any chip, dead ones included",
         "a same-chip group is location-constrained to at most one chip; constraints mention only known vertices",
         "custom vertex orders are permutations of the vertices (documented precondition of sequential.place)",
         "completeness clause read as: one resource r0, every vertex needs 0 or 1 unit of r0 and nothing else, at least one working chip",
